@@ -74,6 +74,11 @@ CLAIMED = {
             "misses; the expected order and first-match results are computed by the model, not by the lookup code. The "
             "upper-snake-case constants are probed by compiling one program per unit (E2).",
             TRUST_E1, "5.9"),
+    "C12": (E2, "exhaustive application of every defect class to every well-formed base definition of a bounded grammar; each malformed definition expanded / type-checked by rustc, verdict and error location compared with the expectation",
+            "43 concrete defect forms covering every clause of the statement x 26 base definitions (all kinds, sizes, "
+            "basic and derived) = 940 malformed definitions per back-end, plus tests/ui verbatim; each must carry an error "
+            "inside its own line range while the well-formed control definitions compile clean.",
+            "Trusted: rustc and the proc-macro diagnostics it reports; line-range attribution. Definitions outside the grammar (more than 3 further units, other identifier conventions) are not enumerated.", "5.12"),
     "C13": (E1, "bounded exhaustive exploration of rate construction, reciprocal, rate*q, q*rate, q/rate and their inverse paths on the real code against an exact-rational reference model",
             "All 56 ordered type pairs of a representative set x all term/per/operand units x alphabet amounts; accessors "
             "and reciprocal bit-exact, products and quotients against exact rationals, inverse and reciprocal agreement "
